@@ -286,7 +286,15 @@ WebSocketMsg WebSocket::receive()
 			len = _socket.read<unsigned short>();
 		}
 		else if (len == 127)
-			len = (int)_socket.read<Long>(); // what if length larger than int?
+		{
+			Long len64 = _socket.read<Long>();
+			if (len64 < 0 || len64 > 0x7ffffff0) // cannot be held in memory: protocol error
+			{
+				close();
+				return WebSocketMsg().fix();
+			}
+			len = (int)len64;
+		}
 
 		unsigned mask = 0;
 		if (masked)
